@@ -17,12 +17,14 @@ var aqDims = []dim{
 	{"subject", []string{"alice", "no-nameid", "unknown-user", "bob"}},
 	{"requested", []string{"none", "email", "email+username", "wrong-name", "wrong-format", "duplicate", "custom", "mixed"}},
 	{"destination", []string{"absent", "attribute-service", "sso-location", "foreign"}},
-	{"signature", []string{"none", "valid", "tampered", "foreign-key", "empty-value"}},
+	{"signature", []string{"none", "valid", "tampered", "foreign-key", "empty-value", "valid-nokeyinfo", "tampered-nokeyinfo"}},
 	{"user", []string{"full", "custom", "minimal", "hostile"}},
 	{"lookup", []string{"ok", "fail"}},
 	{"userinfo", []string{"ok", "fail"}},
 	{"respkey", []string{"ok", "fail", "nil"}},
 	{"style", []string{"0", "1"}},
+	{"spcerts", []string{"one", "none"}},
+	{"nsplace", []string{"local", "envelope"}},
 }
 
 const attrServiceLocation = "https://idp.example.com/saml/attribute"
@@ -78,7 +80,11 @@ func runAq(c Case) *AqRun {
 	r := &AqRun{Case: c, QueryID: "aq-4711"}
 	st := newStorage()
 	r.Storage = st
-	_ = st.Register(SPSpec{EntityID: spEntity, AppID: "app-1", ReqSigned: "-", Certs: []string{spKeys.B64}, Acs: acsFor("post")})
+	spCerts := []string{spKeys.B64}
+	if c["spcerts"] == "none" {
+		spCerts = nil
+	}
+	_ = st.Register(SPSpec{EntityID: spEntity, AppID: "app-1", ReqSigned: "-", Certs: spCerts, Acs: acsFor("post")})
 	u := usersFor(c["user"])
 	st.Users["alice"] = u
 	st.Users["bob"] = &User{Email: "bob@example.com", Username: "bob", UserID: "uid-2", Surname: "Builder"}
@@ -155,15 +161,33 @@ func runAq(c Case) *AqRun {
 		r.QueryID = "aq-4712"
 	case "foreign-key":
 		query, err = cachedEnveloped(query, foreignKeys, algRSASHA256, true, "")
+	case "valid-nokeyinfo":
+		query, err = cachedEnveloped(query, spKeys, algRSASHA256, false, "")
+	case "tampered-nokeyinfo":
+		// ds:KeyInfo is optional; the query is changed after signing (another subject's data is asked for)
+		query, err = cachedEnveloped(query, spKeys, algRSASHA256, false, "")
+		query = strings.Replace(query, "aq-4711", "aq-4712", 1)
+		r.QueryID = "aq-4712"
 	}
 	if err != nil {
 		panic(err)
+	}
+	nsOnEnvelope := ""
+	if c["nsplace"] == "envelope" && c["style"] != "1" {
+		// the prefixes are declared on the SOAP envelope instead of the query element: the same infoset for a
+		// namespace-aware parser, and the same exclusive-c14n octets, so a signature stays valid
+		for _, decl := range []string{fmt.Sprintf(` xmlns:samlp="%s"`, nsProtocol), fmt.Sprintf(` xmlns:saml="%s"`, nsAssertion)} {
+			if strings.Contains(query, decl) {
+				query = strings.Replace(query, decl, "", 1)
+				nsOnEnvelope += decl
+			}
+		}
 	}
 	query = strings.TrimPrefix(query, `<?xml version="1.0" encoding="UTF-8"?>`)
 	body := ""
 	switch c["envelope"] {
 	case "ok":
-		body = `<soap:Envelope xmlns:soap="http://schemas.xmlsoap.org/soap/envelope/"><soap:Body>` + query + `</soap:Body></soap:Envelope>`
+		body = `<soap:Envelope xmlns:soap="http://schemas.xmlsoap.org/soap/envelope/"` + nsOnEnvelope + `><soap:Body>` + query + `</soap:Body></soap:Envelope>`
 	case "no-query":
 		body = `<soap:Envelope xmlns:soap="http://schemas.xmlsoap.org/soap/envelope/"><soap:Body></soap:Body></soap:Envelope>`
 	case "notxml":
@@ -256,8 +280,12 @@ func monC12(c *Ctx, r *AqRun) {
 		bad("answered although the Issuer is not a registered service provider", "guard-issuer")
 	}
 	switch cs["signature"] {
-	case "tampered", "foreign-key":
+	case "tampered", "foreign-key", "tampered-nokeyinfo":
 		bad("answered although the signature carried by the query does not verify under the registered certificate", "guard-signature:"+cs["signature"])
+	case "valid", "valid-nokeyinfo":
+		if cs["spcerts"] == "none" {
+			bad("answered although the query carries a signature and no certificate is registered to verify it with", "guard-signature:no-registered-certificate")
+		}
 	}
 	switch cs["destination"] {
 	case "sso-location", "foreign":
@@ -335,7 +363,7 @@ func monC09aq(c *Ctx, r *AqRun) {
 func monC07aq(c *Ctx, r *AqRun) {
 	cs := r.Case
 	conformant := cs["envelope"] == "ok" && cs["issuer"] == "registered" && (cs["subject"] == "alice" || cs["subject"] == "bob") &&
-		(cs["destination"] == "absent" || cs["destination"] == "attribute-service") && (cs["signature"] == "none" || cs["signature"] == "valid") &&
+		(cs["destination"] == "absent" || cs["destination"] == "attribute-service") && (cs["signature"] == "none" || ((cs["signature"] == "valid" || cs["signature"] == "valid-nokeyinfo") && cs["spcerts"] == "one")) &&
 		cs["lookup"] == "ok" && cs["userinfo"] == "ok" && cs["respkey"] == "ok"
 	if !conformant || r.Reply.Panicked {
 		return
